@@ -698,6 +698,42 @@ class Interp:
                     return isinstance(ix_, Arr) and ix_.ndim == 1 and ix_.dims == (lab_,) and ix_.poly == mk_
                 if st.body and all(isinstance(b_, ast.Assign) and all(masked_by(t_) for t_ in b_.targets) for b_ in st.body):
                     return self.block(st.body, env, mod)
+        if not st.orelse and isinstance(tv, Arr) and tv.ndim == 0 and tv.mask is None and st.body and all(isinstance(b_, ast.Assign) for b_ in st.body):
+            # `if not np.all(m): x = x[m]` (several names, possibly as tuples): where the mask holds everywhere the selection is the whole array, so the
+            # rebinding may as well happen unconditionally
+            def selections_by(m_poly, lab_):
+                for b_ in st.body:
+                    tg_ = b_.targets[0].elts if isinstance(b_.targets[0], ast.Tuple) else [b_.targets[0]]
+                    vl_ = b_.value.elts if isinstance(b_.value, ast.Tuple) and isinstance(b_.targets[0], ast.Tuple) else [b_.value]
+                    if len(b_.targets) != 1 or len(tg_) != len(vl_):
+                        return False
+                    for t_, v_ in zip(tg_, vl_):
+                        if not (isinstance(t_, ast.Name) and isinstance(v_, ast.Subscript) and isinstance(v_.value, ast.Name) and v_.value.id == t_.id):
+                            return False
+                        ix_ = v_.slice.elts if isinstance(v_.slice, ast.Tuple) else [v_.slice]
+                        if not all((isinstance(i_, ast.Constant) and i_.value is Ellipsis) or (isinstance(i_, ast.Slice) and not (i_.lower or i_.upper or i_.step)) for i_ in ix_[:-1]):
+                            return False
+                        try:
+                            mv_ = self.expr(ix_[-1], dict(env), mod)
+                        except Exception:
+                            return False
+                        if not (isinstance(mv_, Arr) and mv_.ndim == 1 and mv_.dims == (lab_,) and mv_.poly == m_poly):
+                            return False
+                return True
+            try:
+                cand_ = None
+                b0_ = st.body[0].value
+                b0_ = b0_.elts[0] if isinstance(b0_, ast.Tuple) else b0_
+                if isinstance(b0_, ast.Subscript):
+                    ixs_ = b0_.slice.elts if isinstance(b0_.slice, ast.Tuple) else [b0_.slice]
+                    cand_ = self.expr(ixs_[-1], dict(env), mod)
+            except Exception:
+                cand_ = None
+            if isinstance(cand_, Arr) and cand_.ndim == 1 and cand_.dims[0] and _is_boolean(cand_.poly):
+                lab_ = cand_.dims[0]
+                forms_ = [alg.b_not(alg.mk_fn('all', B(lab_, cand_.poly))), alg.mk_fn('any', B(lab_, alg.b_not(cand_.poly)))]
+                if any(tv.poly == f_ for f_ in forms_) and selections_by(cand_.poly, lab_):
+                    return self.block(st.body, env, mod)
         # raise-guards are preconditions: if one side only raises, take the other
         b_raises = _only_raises(st.body)
         o_raises = bool(st.orelse) and _only_raises(st.orelse)
@@ -797,6 +833,11 @@ class Interp:
         if (isinstance(it, ast.Subscript) and isinstance(it.value, ast.Call) and (chain(it.value.func) or '').endswith('where')
                 and up(it.slice) == '0' and len(it.value.args) == 1):
             m = self.expr(it.value.args[0], env, mod)
+            if isinstance(m, Arr) and m.ndim == 1 and m.mask is not None:
+                # positions in a compressed selection (x[sel] == value): they count the selected elements, not the positions of the axis
+                self.store(st.target, Pinned('sel:' + alg.show(m.mask, 400), m.poly), env, mod)
+                sig = self.block(st.body, env, mod)
+                return sig if sig and sig[0] in ('return', 'raise') else None
             if isinstance(m, Arr) and m.ndim == 1:
                 self.store(st.target, Pinned(m.dims[0], m.poly), env, mod)
                 sig = self.block(st.body, env, mod)
@@ -1209,6 +1250,14 @@ class Interp:
                     setv(Unk('too many indices in store', t))
                     return
                 lab = cur_dims[ax]
+                if isinstance(v, Pinned) and isinstance(v.label, str) and v.label.startswith('sel:'):
+                    if old.mask is not None and ('sel:' + alg.show(old.mask, 400)) == v.label:
+                        cond = cond * v.guard          # a position of the selection the array itself is: the store lands on the selected elements
+                        ax += 1
+                        continue
+                    self.findings.append(Finding('label-clash', 'counter of the selection %s used to store into %s in %s' % (v.label[4:][:80], 'another selection' if old.mask is not None else 'an unselected array', up(sub)), sub, mod.path))
+                    setv(Unk('label clash', t, definite=True))
+                    return
                 if isinstance(v, Pinned):
                     if lab != v.label:
                         self.findings.append(Finding('label-clash', 'index over axis %r used on axis %r in store %s' % (v.label, lab, up(sub)), sub, mod.path))
@@ -2505,6 +2554,8 @@ class Interp:
             gone = {x.dims[ax] for ax in axes}
             if alg.poly_labels(mask) & gone:
                 mask = None
+            elif mask.is_const() and kind in ('sum', 'any'):
+                mask = None          # a selection that takes everything or nothing: the sum already carries the factor
         dims = [d for k, d in enumerate(x.dims) if k not in axes]
         if self.track_xr:
             self.xr_log.append((p, kind, _xr(x)))
